@@ -1,0 +1,23 @@
+//go:build verif
+
+package center
+
+// Contracts for contract-based deductive verification (read by /verif/govc). Comment-only.
+
+/*@
+-- Center (C14): given a child that honours the layout contract, the child is placed fully inside the
+-- parent with margins equal to within one cell; the parent takes the whole constraint.
+func (c *Center) Draw(ctx vxfw.DrawContext) (vxfw.Surface, error)
+  panics when ctx.Max.Height == 65535 || ctx.Max.Width == 65535
+  requires child: c.Child != nil
+  ensures C14_max:  result1 == nil ==> (result0.Size.Width <= ctx.Max.Width && result0.Size.Height <= ctx.Max.Height)
+  ensures C14_buf:  result1 == nil ==> len(result0.Buffer) == int(result0.Size.Width) * int(result0.Size.Height)
+  ensures C14_inside: (result1 == nil && len(result0.Children) == 1) ==>
+       (0 <= result0.Children[0].Origin.Col
+        && result0.Children[0].Origin.Col + int(result0.Children[0].Surface.Size.Width) <= int(ctx.Max.Width)
+        && 0 <= result0.Children[0].Origin.Row
+        && result0.Children[0].Origin.Row + int(result0.Children[0].Surface.Size.Height) <= int(ctx.Max.Height))
+  ensures C14_centred: (result1 == nil && len(result0.Children) == 1) ==>
+       (abs((int(ctx.Max.Width) - int(result0.Children[0].Surface.Size.Width) - result0.Children[0].Origin.Col) - result0.Children[0].Origin.Col) <= 1
+        && abs((int(ctx.Max.Height) - int(result0.Children[0].Surface.Size.Height) - result0.Children[0].Origin.Row) - result0.Children[0].Origin.Row) <= 1)
+@*/
